@@ -259,7 +259,7 @@ sys.exit(plan["status"])
 """
 
 
-def real_child_case(rng, res):
+def real_child_case(rng, res, busy=None):
     """A real child process (no scripted Popen, real capture files, real polling and clock): it writes chunks to fd 1 / 2
     with delays from none to longer than a polling iteration and exits with a status or a signal. Whatever the schedule
     turned out to be, the record must be the text it wrote (the model: any schedule with these bytes gives the same)."""
@@ -281,10 +281,26 @@ def real_child_case(rng, res):
     tmp = tempfile.mkdtemp(prefix="verif-c13r-")
     old_tmp = tempfile.tempdir
     tempfile.tempdir = tmp
+    # a capture file that is "busy" for a moment when it is to be removed (the first or the second one; once): the removal
+    # is tried again - both files are gone afterwards, the record is what it would have been
+    real_remove = os.remove
+    state = {"calls": 0, "failed": 0}
+
+    def flaky_remove(path, *a, **kw):
+        if busy is not None and os.path.dirname(os.path.abspath(path)) == tmp:
+            state["calls"] += 1
+            if state["calls"] == busy + 1 and not state["failed"]:
+                state["failed"] = 1
+                raise PermissionError(13, "busy (injected)", path)
+        return real_remove(path, *a, **kw)
     try:
         with contextlib.redirect_stdout(io.StringIO()), contextlib.redirect_stderr(io.StringIO()):
             try:
-                r = rl.execute_link([sys.executable, "-c", CHILD, _json.dumps(plan)], True, timeout=30)
+                os.remove = flaky_remove
+                try:
+                    r = rl.execute_link([sys.executable, "-c", CHILD, _json.dumps(plan)], True, timeout=30)
+                finally:
+                    os.remove = real_remove
                 i = {"returned": [str(r["return-value"]), r["stdout"], r["stderr"]]}
             except Exception as e:  # pylint: disable=broad-except
                 i = {"outcome": type(e).__name__}
@@ -297,7 +313,7 @@ def real_child_case(rng, res):
     m = core.driver().call({"op": "streams", "N": 8192, "timeout": 30, "sched": [e.as_json() for e in sched]})
     agreed = i == m
     case = {"op": "real_child", "plan": {"writes": [[fd, len(h) // 2, dl] for fd, h, dl in writes], "signal": sig, "status": status},
-            "replay_plan": plan}
+            "replay_plan": plan, "capture_file_busy_once_at_removal": busy}
     res.case({"family": "real_child", "writes": len(writes), "bytes": len(data[1]) + len(data[2]), "impl": summarise(i)},
              len(writes) >= 2, agreed, sample_cap=2)
     res.count("family_real_child")
@@ -394,8 +410,8 @@ def limit_case(rng, res, fixed=None):
 def shard_real(seed, idx, n):
     res = core.Result()
     rng = core.rng_for(seed, "c13", "real", idx)
-    for _ in range(n):
-        real_child_case(rng, res)
+    for j in range(n):
+        real_child_case(rng, res, busy=[0, 1, None][j % 3] if idx % 2 == 0 else None)
     limit_case(rng, res, fixed=LIMIT_GRID[idx % len(LIMIT_GRID)])       # (every combination once per run, whatever the seed)
     return res
 
